@@ -301,7 +301,8 @@ def link_document():
     links_exact = {
         "GetIt": {
             "operationId": "getItem",
-            "parameters": {"id": "$response.body#/id", "query.v": "$request.query.ver", "X-Tok": "$response.header.X-Token"},
+            # `id` exists in the path and in the query of the target: the qualified name decides
+            "parameters": {"id": "$response.body#/id", "query.v": "$request.query.ver", "X-Tok": "$response.header.X-Token", "query.id": "$request.query.ver"},
         }
     }
     links_wild = {
@@ -335,7 +336,7 @@ def link_document():
             "/items/{id}": {
                 "get": {
                     "operationId": "getItem",
-                    "parameters": [docs.int_param("id", "path"), {"name": "v", "in": "query", "schema": {"type": "string"}}, {"name": "X-Tok", "in": "header", "schema": {"type": "string"}}],
+                    "parameters": [docs.int_param("id", "path"), {"name": "v", "in": "query", "schema": {"type": "string"}}, {"name": "X-Tok", "in": "header", "schema": {"type": "string"}}, {"name": "id", "in": "query", "schema": {"type": "string"}}],
                     "responses": {"200": copy.deepcopy(ok_obj)},
                 },
                 "put": {
